@@ -24,7 +24,7 @@ type Params struct {
 	Auto      bool
 	Retention bool
 	Faults    []string
-	Initial   string // none | valid
+	Initial   string // none | zero | valid
 	RetryMax  int
 	MaxOps    int // marks+resets per partition
 	Gates     map[string]bool
@@ -121,6 +121,12 @@ func run(c *gx.Ctl, p *Params) *gx.Outcome {
 	if p.Initial == "valid" {
 		for i := 0; i < p.NParts; i++ {
 			g.Offsets[simkafka.TP{Topic: "t", Partition: int32(i)}] = simkafka.StoredOffset{Offset: 5, Metadata: "init"}
+		}
+	}
+	if p.Initial == "zero" {
+		// a commit at offset 0 is a stored position, not "none"
+		for i := 0; i < p.NParts; i++ {
+			g.Offsets[simkafka.TP{Topic: "t", Partition: int32(i)}] = simkafka.StoredOffset{Offset: 0, Metadata: "init0"}
 		}
 	}
 	c.AutoRelease = func(site string) bool { return !p.Gates[site] }
